@@ -55,7 +55,10 @@ class InitMethod(MethodDescriptor):
                     parent_kwargs = {}
                     for attr in parent_metadata.attrs:
                         instance_attr_spec = instance_metadata.attrs[attr]
-                        if instance_attr_spec.owner is not parent:
+                        if (
+                            instance_attr_spec.owner is not parent
+                            or not instance_attr_spec.init
+                        ):
                             continue
                         if attr in kwargs:
                             # The parent constructor will not copy this value
